@@ -457,6 +457,7 @@ func runC14(c *Ctx) {
 	}
 	c14Hangups(c, nHang)
 	c14SlowTransfers(c)
+	c14BarrierAfterFailedSend(c)
 	c.Diag("c14 openpipe: %d READ/WRITE requests overtook the pipelined OPEN whose handle they guessed (answered STATUS 4; tolerated: no client can know a handle before the OPEN reply)", overtaken)
 	c.Diag("c14 scheduler: %d full gate rounds; %d gates had to be opened before the CLOSE frame could be written (pipeline full); %d runs fell back to the 50 ms idle rule", rounds, stalls, mispred)
 }
